@@ -41,8 +41,8 @@ from mpyc.sectypes import SecureObject  # noqa: E402
 
 ID = 'C33'
 LEVEL = 'exploration'
-CASE_TIMEOUT = 600
-RULE = ('Oracle A: generated (m,t,PRSS) x type (SecInt, SecFxp, prime/binary SecFld) x all 13 functions of the '
+CASE_TIMEOUT = 3000   # a cell is up to 40000 sequential runs; the watchdog is for non-termination only
+RULE = ('Oracle A: generated (m,t,PRSS) x type (SecInt, SecFxp, prime/binary SecFld) x all 12 functions of the '
         'statement x ranges/steps/populations (public, secret, mixed, duplicates)/k/weights/cum_weights incl. the '
         'documented exceptions; result opened at every party, equal everywhere and of the documented shape. '
         'Oracle B: enumerated cells (function, type, arguments), m=1: complete binary tree of the secret random bits '
@@ -57,6 +57,10 @@ ASSUMPTIONS = ['Oracle B models the secret random bits handed to mpyc/random.py 
                'of [a,b) (what a + (b-a)*random() gives) or of [a,b]; both accepted',
                'random_derangement: argument free of duplicates and of length != 1 (documented assumption; no '
                'derangement of one item exists)']
+
+
+# F33a..F33e are fixed in /repo: their input classes are generated freely again
+AVOID_KNOWN = False
 
 
 def budget(tier):
@@ -507,6 +511,10 @@ def run_shape(case):
     if not res.all_done:
         txt = ' '.join(x for _, x in res.errors[:2])
         return fail('exc', f'run did not complete: {res.describe()} {txt[-1500:]}')
+    if res.errors:
+        # e.g. the body of a coroutine failed after its (empty) list of placeholders had been handed out
+        txt = ' '.join(x for _, x in res.errors[:2])
+        return fail('exc', f'exception inside an MPyC coroutine (reported to the event loop): {txt[-1500:]}')
     v0 = res.values[0]
     if any(v[:2] != v0[:2] for v in res.values):
         return fail('disagree', f'parties disagree: {[v[:2] for v in res.values]}')
@@ -693,7 +701,7 @@ def _pop(vals, form='sec'):
 
 def enumerate_cases(tier):
     big = tier != 'quick'
-    runs = 6000 if not big else 60000
+    runs = 4000 if not big else 40000
     cells = []
 
     def cell(fn, typ, args, r=None):
@@ -767,16 +775,20 @@ def enumerate_cases(tier):
     cell('random_permutation', I8, dict(pop=_pop([9, 8, 7, 6], 'pub')))
     cell('random_permutation', X84, dict(n=4))
     for n in (2, 3, 4) + ((5,) if big else ()):
-        cell('random_derangement', I8, dict(n=n), r=runs * 2)
+        cell('random_derangement', I8, dict(n=n))
     cell('random_derangement', F16, dict(n=3))
     cell('random_derangement', X84, dict(n=3))
-    cell('random_derangement', I8, dict(pop=_pop([5, 3, 1, 2])), r=runs * 2)
+    cell('random_derangement', I8, dict(pop=_pop([5, 3, 1, 2])))
     # random / uniform
     for typ in (['fxp', 8, 4], ['fxp', 8, 2], ['fxp', 12, 6], ['fxp', 16, 8]):
         cell('random', typ, dict())
     for a, b in ((0, 16), (16, 0), (-8, 8), (3, 8), (24, 19), (-40, -33), (0, 2), (5, 105)):
         cell('uniform', X84 if abs(a) < 100 and abs(b) < 100 else ['fxp', 12, 4], dict(a=a, b=b, f=4))
-    cell('uniform', X168, dict(a=-3, b=300, f=8), r=runs * 2)
+    cell('uniform', X168, dict(a=-3, b=300, f=8))
+    # cells are dealt to the shards round-robin: expensive kinds first, so that they spread evenly
+    weight = {'random_derangement': 10, 'choices': 4, 'sample': 3, 'shuffle': 3, 'random_permutation': 3,
+              'random_unit_vector': 2, 'uniform': 2, 'choice': 2}
+    cells.sort(key=lambda c: -weight.get(c['fn'], 1))
     return cells
 
 
@@ -954,7 +966,7 @@ def _case(draw, tier):
     for attempt in range(4):
         a = draw(_args(fn, tt))
         case = dict(mode='shape', m=m, t=t, prss=prss, no_async=no_async, typ=typ, fn=fn, args=a)
-        if finding_class(case)[0] is None:
+        if not AVOID_KNOWN or finding_class(case)[0] is None:
             break
         # known-finding classes F33a..e: the main search stays out of them (counted); a few go through
         if attempt == 0 and draw(st.integers(0, 7)) == 0:
